@@ -140,26 +140,6 @@ def ambiguous_placeholders(g):
     return False
 
 
-def parallel_links_under_path(g):
-    """two links (stored or placeholder) over the same pair of segment ends, one of them walked by a path: the library
-    binds the step to a link *object* and removes the path with that link, the model resolves the step to the first
-    stored link that fits and keeps the path while another link fits - what the removal of one of the two means for
-    the path is not pinned down by the property (the text model of the oracles calls it ambiguous too), so the
-    correspondence stops comparing such a state"""
-    try:
-        keys = {}
-        for l in g._gfa1_links:
-            k = frozenset([(str(l.from_name), "R" if l.from_orient == "+" else "L"),
-                           (str(l.to_name), "L" if l.to_orient == "+" else "R")])
-            keys.setdefault(k, []).append(l)
-        for k, ls in keys.items():
-            if len(ls) > 1 and any(len(l.paths) > 0 for l in ls):
-                return True
-    except Exception:
-        return False
-    return False
-
-
 def obs_flat(g):
     """Canonical observation in the flat layout the Lean model prints (GfaModel/GraphObs.lean `obs`).
     Only graph records (S L C P E G F O U and virtual unknowns) are included."""
